@@ -406,6 +406,20 @@ pub fn closing_then_three_sew(rng: &mut Rng, s: &State) -> Option<(State, crate:
     if pairs.is_empty() {
         return None;
     }
+    // most of the time without user attribute kinds, whose weight laws reject merges of two
+    // valueless cells and would make the sews fail for unrelated reasons
+    let stripped;
+    let s = if rng.chance(0.7) {
+        let mut t = s.clone();
+        t.kinds = 0;
+        for a in t.attrs.iter_mut() {
+            a.clear();
+        }
+        stripped = t;
+        &stripped
+    } else {
+        s
+    };
     let (l, r) = *rng.pick(&pairs);
     let side = if rng.chance(0.5) { l } else { r };
     let face = s.face_walk(side, true).fwd;
